@@ -90,6 +90,27 @@ def tlc(module, args=(), cfg=None, env=None, workers=16, timeout=1800, extra_fil
         shutil.rmtree(scratch, ignore_errors=True)
 
 
+def apalache(module, inv, timeout=300):
+    """Apalache (SMT) on specs/<module>.tla: --length=0 --inv=<inv>, i.e. the invariant holds in every initial state (the
+    initial states of these modules are "every value of the parameters"); returns 'NoError', 'Error' or 'unknown'"""
+    scratch = tempfile.mkdtemp(prefix='pikeapa.')
+    try:
+        shutil.copy(os.path.join(SPECS, module + '.tla'), scratch)
+        try:
+            p = subprocess.run(['apalache-mc', 'check', '--length=0', '--inv=' + inv, '--out-dir=' + os.path.join(scratch, 'out'), module + '.tla'],
+                               cwd=scratch, env=dict(os.environ, JVM_ARGS='-Djava.io.tmpdir=' + scratch), stdout=subprocess.PIPE,
+                               stderr=subprocess.STDOUT, text=True, timeout=timeout)
+        except (subprocess.TimeoutExpired, OSError):
+            return 'unknown'
+        if 'The outcome is: NoError' in p.stdout:
+            return 'NoError'
+        if 'The outcome is: Error' in p.stdout or 'invariant' in p.stdout and 'violated' in p.stdout:
+            return 'Error'
+        return 'unknown'
+    finally:
+        shutil.rmtree(scratch, ignore_errors=True)
+
+
 def tlc_stats(text):
     m = re.search(r'(\d+) states generated, (\d+) distinct states found', text)
     if m:
